@@ -36,7 +36,7 @@ func (w *hRW18) WriteHeader(code int) { w.status = code }
 // refused, and once the handler has let the requests go a new GET is served again.
 //
 //vf:quick unwind=16 decisions=500 goroutines=10 preempt=1 paths=600000
-//vf:thorough unwind=16 decisions=800 goroutines=12 preempt=2 paths=6000000
+//vf:thorough unwind=16 decisions=800 goroutines=12 preempt=1 paths=6000000
 //vf:expect reach=refused reach=all-served
 func VerifC18_GetConcurrency() {
 	limit := 1 + vfChoice("limit", 2)
